@@ -12,6 +12,7 @@ import (
 	"github.com/AdguardTeam/AdGuardHome/internal/aghhttp"
 	"github.com/AdguardTeam/golibs/container"
 	"github.com/AdguardTeam/golibs/log"
+	"github.com/AdguardTeam/golibs/netutil"
 	"github.com/AdguardTeam/golibs/stringutil"
 	"github.com/AdguardTeam/urlfilter"
 	"github.com/AdguardTeam/urlfilter/filterlist"
@@ -129,12 +130,26 @@ func newAccessCtx(allowed, blocked, blockedHosts []string) (a *accessManager, er
 // them case-insensitively anyway, while lowercasing their text changes the
 // meaning of escape sequences such as \D, \S, and \W and breaks constructs such
 // as (?P<name>re).
+//
+// An exact domain name or a wildcard written in its fully qualified form, i.e.
+// with the trailing dot, is returned without that dot, since the names of the
+// requests are matched without it, and the rule engine would otherwise take
+// the entry for a substring pattern that doesn't match the name itself.
 func lowerBlockedHost(rule string) (lowered string) {
 	if strings.HasPrefix(strings.TrimPrefix(rule, "@@"), "/") {
 		return rule
 	}
 
-	return strings.ToLower(rule)
+	lowered = strings.ToLower(rule)
+
+	trimmed := strings.TrimSpace(lowered)
+	if name, ok := strings.CutSuffix(trimmed, "."); ok {
+		if netutil.ValidateDomainName(strings.TrimPrefix(name, "*.")) == nil {
+			return name
+		}
+	}
+
+	return lowered
 }
 
 // allowlistMode returns true if this *accessCtx is in the allowlist mode.
